@@ -14,6 +14,9 @@ from core import wire, fr
 
 class C09(core.Check):
     pid = 'C09'
+    unproved = [
+        'which candle is handed to the liquidation check and when (after the resting orders of the minute / chunk): engine correspondence + liquidation oracle',
+    ]
     gen_keys = ['jesse/models/Position.py:Position.liquidation_price', 'jesse/models/Position.py:Position.bankruptcy_price',
                 'jesse/models/Position.py:Position._initial_margin_rate', 'jesse/models/Position.py:Position.type',
                 'jesse/models/Position.py:Position.is_long', 'jesse/models/Position.py:Position.is_short',
@@ -89,7 +92,7 @@ class C09(core.Check):
 
     def engine_correspondence(self, res, boost):
         rng = random.Random(self.seed * 7919 + 9)
-        engcorr.compare_sessions(res, self.engine_sessions(self.budget(40, 700, boost), rng))
+        engcorr.compare_sessions(res, self.engine_sessions(self.budget(100, 700, boost), rng))
 
     def trigger_oracle(self, res, boost):
         """on real traces: a force-close happens at the end of a minute (chunk) iff the position is still open after
@@ -97,7 +100,7 @@ class C09(core.Check):
         closing side for the whole position at the bankruptcy price; the loss is the initial margin plus fees"""
         M = 60_000
         rng = random.Random(self.seed * 104729 + 9)
-        for sess in self.engine_sessions(self.budget(60, 1200, boost), rng):
+        for sess in self.engine_sessions(self.budget(180, 1200, boost), rng):
             cands = engcorr.candles_of(sess)
             ev, tr, err = engcorr.run_real(sess, cands)
             res.count('sessions:' + ('fast' if sess['fast'] else 'step') + (':isolated' if sess['isolated'] else ':cross'))
